@@ -1667,6 +1667,130 @@ def collapse_fill_loops(fn, known_locals):
   return fn
 
 
+def index_loops(fn, ref_loops):
+  """A loop that the reference writes with an index,
+      for i in range(len(X)): ... X[i] ...
+      for i in range(1, len(X)): ... X[i - 1] ... X[i] ...
+  and the function writes with element variables,
+      for i, v in enumerate(X):                          v     = X[i]
+      for p, c in zip(X[:-1], X[1:]):                    p, c  = X[i-1], X[i]
+      for i, (p, c) in enumerate(zip(X[:-1], X[1:]), start=1):
+  gets the index form back (element variables replaced by the subscripts),
+  when the body neither re-binds the element variables nor X.  `X or []`
+  iterates X itself whenever the body runs."""
+  import copy as _copy
+  ref = {}
+  for it, tg in ref_loops or []:
+    ref.setdefault(it, set()).add(tg)
+  have = {ast.unparse(n.iter) for n in ast.walk(fn) if isinstance(n, ast.For)}
+
+  def base(x):
+    # `A or []` -> A
+    if isinstance(x, ast.BoolOp) and isinstance(x.op, ast.Or) and len(
+        x.values) == 2 and isinstance(x.values[1], (ast.List, ast.Tuple)) \
+        and not x.values[1].elts:
+      return x.values[0]
+    return x
+
+  def pair_zip(call):
+    """X for zip(X[:-1], X[1:])"""
+    if not (isinstance(call, ast.Call) and isinstance(call.func, ast.Name)
+            and call.func.id == 'zip' and len(call.args) == 2 and
+            not call.keywords):
+      return None
+    a, b = call.args
+    if not (isinstance(a, ast.Subscript) and isinstance(b, ast.Subscript) and
+            isinstance(a.slice, ast.Slice) and isinstance(b.slice, ast.Slice)
+            and ast.unparse(a.value) == ast.unparse(b.value)):
+      return None
+    if ast.unparse(a.slice) != ':-1' or ast.unparse(b.slice) != '1:':
+      return None
+    return a.value
+
+  for loop in [n for n in ast.walk(fn) if isinstance(n, ast.For)]:
+    it = loop.iter
+    subs = None        # {element variable: subscript text}
+    idx_name = None
+    seq = None
+    start = None
+    if isinstance(it, ast.Call) and isinstance(it.func, ast.Name) and \
+        it.func.id == 'enumerate' and it.args and isinstance(
+            loop.target, ast.Tuple) and len(loop.target.elts) == 2 and \
+        isinstance(loop.target.elts[0], ast.Name):
+      idx_name = loop.target.elts[0].id
+      kw = {k.arg: k.value for k in it.keywords}
+      st = kw.get('start', it.args[1] if len(it.args) > 1 else None)
+      inner = it.args[0]
+      pz = pair_zip(inner)
+      if pz is not None and st is not None and isinstance(
+          st, ast.Constant) and st.value == 1 and isinstance(
+              loop.target.elts[1], ast.Tuple) and len(
+                  loop.target.elts[1].elts) == 2 and all(isinstance(
+                      e, ast.Name) for e in loop.target.elts[1].elts):
+        seq, start = pz, 1
+        p_, c_ = [e.id for e in loop.target.elts[1].elts]
+        subs = {p_: '%s[{i} - 1]', c_: '%s[{i}]'}
+      elif pz is None and st is None and isinstance(loop.target.elts[1],
+                                                    ast.Name):
+        seq, start = inner, 0
+        subs = {loop.target.elts[1].id: '%s[{i}]'}
+    else:
+      pz = pair_zip(it)
+      if pz is not None and isinstance(loop.target, ast.Tuple) and len(
+          loop.target.elts) == 2 and all(isinstance(e, ast.Name)
+                                         for e in loop.target.elts):
+        seq, start = pz, 1
+        p_, c_ = [e.id for e in loop.target.elts]
+        subs = {p_: '%s[{i} - 1]', c_: '%s[{i}]'}
+    if subs is None:
+      continue
+    seq_txt = ast.unparse(seq)
+    want = 'range(len(%s))' % seq_txt if start == 0 else \
+        'range(1, len(%s))' % seq_txt
+    if want not in ref or want in have or len(ref[want]) != 1:
+      continue
+    ref_idx = next(iter(ref[want]))
+    if not ref_idx.isidentifier():
+      continue
+    b = base(seq)
+    if not isinstance(b, (ast.Name, ast.Attribute)):
+      continue
+    b_txt = ast.unparse(b)
+    body_names = [n for x in loop.body for n in ast.walk(x)
+                  if isinstance(n, ast.Name)]
+    stored = {n.id for n in body_names if isinstance(n.ctx, (ast.Store,
+                                                             ast.Del))}
+    root = b_txt.split('.')[0]
+    if stored & (set(subs) | {root, idx_name or ref_idx, ref_idx}):
+      continue
+    if idx_name is None and any(n.id == ref_idx for n in body_names):
+      continue
+    after = [n for n in ast.walk(fn) if isinstance(n, ast.Name) and
+             n.id in set(subs) | ({idx_name} if idx_name and
+                                  idx_name != ref_idx else set()) and
+             not any(n is m for m in ast.walk(loop))]
+    if after:
+      continue
+
+    class S(ast.NodeTransformer):
+      def visit_Name(self_, n):
+        if isinstance(n.ctx, ast.Load) and n.id in subs:
+          e = ast.parse((subs[n.id] % b_txt).format(i=ref_idx),
+                        mode='eval').body
+          return ast.copy_location(e, n)
+        if idx_name and n.id == idx_name:
+          return ast.copy_location(ast.Name(id=ref_idx, ctx=n.ctx), n)
+        return n
+    loop.body = [S().visit(x) for x in loop.body]
+    loop.target = ast.copy_location(ast.Name(id=ref_idx, ctx=ast.Store()),
+                                    loop.target)
+    loop.iter = ast.copy_location(ast.parse(want, mode='eval').body,
+                                  loop.iter)
+    have.add(want)
+    ast.fix_missing_locations(fn)
+  return fn
+
+
 def flat_form(fn):
   """the statements of a function in normal form, one string per simple
   statement / compound header (docstrings dropped): the unit in which the
@@ -1739,6 +1863,7 @@ def normalise_module(modname, tree):
       if inv[q].get('returns'):
         name_returns(fn, inv[q]['returns'])
       expand_fill_comprehensions(fn, inv[q].get('defs'))
+      index_loops(fn, inv[q].get('loops'))
       before = local_names(fn)
       if before - known:
         collapse_fill_loops(fn, known)
